@@ -8,8 +8,8 @@
 (*   C07 min-ADA, value size, transaction size      C16 Build;Build identical         *)
 (*   C19 collateral equation                                                          *)
 EXTENDS LedgerRules, TraceLib
-VARIABLES l, env, pp, keys, byron, balanced, feeReq, lastTx, colHelper
-vars == <<l, env, pp, keys, byron, balanced, feeReq, lastTx, colHelper>>
+VARIABLES l, env, pp, keys, byron, balanced, feeReq, lastTx, colSt, colPct
+vars == <<l, env, pp, keys, byron, balanced, feeReq, lastTx, colSt, colPct>>
 \* ---- addresses (structure only; the full classification is Address.tla, C11)
 IsByronAddr(a) == a # <<>> /\ a[1] \div 16 = 8
 \* Shelley address with a key payment credential: header types 0,2 (base), 4 (pointer), 6 (enterprise); bit 4 set = script
@@ -50,7 +50,7 @@ Reset(e) ==
             kd |-> FromBE(e.pp.kd_n), pd |-> FromBE(e.pp.pd_n)]
   /\ keys' = [v \in {e.keys[i].vkey : i \in 1..Len(e.keys)} |-> (CHOOSE x \in {e.keys[i] : i \in 1..Len(e.keys)} : x.vkey = v).hash]
   /\ byron' = [a \in {e.byron[i].addr : i \in 1..Len(e.byron)} |-> (CHOOSE x \in {e.byron[i] : i \in 1..Len(e.byron)} : x.addr = a).vkey]
-  /\ balanced' = FALSE /\ feeReq' = <<"none">> /\ lastTx' = <<>> /\ colHelper' = FALSE
+  /\ balanced' = FALSE /\ feeReq' = <<"none">> /\ lastTx' = <<>> /\ colSt' = "unset" /\ colPct' = <<>>
 Balancing == {"AddChange", "AddInputsFromAndChange", "AddInputsFromAndChangeWithCollateralReturn"}
 ColHelpers == {"SetCollateralReturnAndTotal", "SetTotalCollateralAndReturn", "AddInputsFromAndChangeWithCollateralReturn"}
 Op(e) ==
@@ -58,11 +58,14 @@ Op(e) ==
   /\ IF Has(e.r, "panic") THEN Fail("C05", "Builder/" \o e.op \o "/panic", e.sc, e.r.panic) ELSE TRUE
   /\ balanced' = (IF e.op \in Balancing THEN Has(e.r, "ok") ELSE IF Has(e.r, "ok") THEN FALSE ELSE balanced)
   /\ feeReq' = (IF ~Has(e.r, "ok") THEN feeReq ELSE IF e.op = "SetFee" THEN <<"exact", FromBE(e.n)>> ELSE IF e.op = "SetMinFee" THEN <<"notless", FromBE(e.n)>> ELSE feeReq)
-  /\ colHelper' = (IF e.op \in ColHelpers THEN Has(e.r, "ok") ELSE IF e.op \in {"SetCollateralReturn", "SetTotalCollateral", "AddCollateral"} /\ Has(e.r, "ok") THEN FALSE ELSE colHelper)
+  \* collateral fields: unset | set by a helper | set through a raw setter | a helper failed while nothing was set
+  /\ colSt' = (IF e.op \in ColHelpers THEN (IF Has(e.r, "ok") THEN "helper" ELSE IF colSt \in {"unset", "failed"} THEN "failed" ELSE colSt)
+               ELSE IF e.op \in {"SetCollateralReturn", "SetTotalCollateral", "AddCollateral"} /\ Has(e.r, "ok") THEN "raw" ELSE colSt)
+  /\ colPct' = (IF e.op = "AddInputsFromAndChangeWithCollateralReturn" /\ Has(e.r, "ok") THEN <<FromBE(e.pct_n)>> ELSE IF e.op \in ColHelpers \cup {"SetCollateralReturn", "SetTotalCollateral"} THEN <<>> ELSE colPct)
 EnvVals == [k \in DOMAIN env |-> env[k].value]
 Built(e) ==
   LET sc == e.sc tx == Parse(e.tx) IN
-  /\ UNCHANGED <<env, pp, keys, byron, balanced, feeReq, colHelper>>
+  /\ UNCHANGED <<env, pp, keys, byron, balanced, feeReq, colSt, colPct>>
   /\ lastTx' = e.tx
   /\ IF IsErr(tx) \/ tx.mt # 4 \/ Len(tx.kids) # 4 THEN Fail("C03", "Built/malformed-transaction", sc, tx.why) ELSE
      LET body == tx.kids[1] ws == tx.kids[2] outs == Elems(body, 1) fee == ArgN(GetK(body, 2))
@@ -77,19 +80,24 @@ Built(e) ==
      /\ \A j \in 1..Len(outs) :
           /\ Chk(OutMinAdaOk(outs[j], pp.cpb), "C07", "Built/output-below-min-ada", sc, [out |-> j, need |-> ToBE(MinAdaOf(outs[j], pp.cpb), 0), has |-> ToBE(OutValue(outs[j]).coin, 0)])
           /\ Chk(ItemLen(OutValItem(outs[j])) <= pp.maxval, "C07", "Built/value-too-large", sc, [out |-> j, size |-> ItemLen(OutValItem(outs[j]))])
-     /\ (HasK(body, 16) /\ colHelper => Chk(OutMinAdaOk(GetK(body, 16), pp.cpb), "C07", "Built/collateral-return-below-min-ada", sc, 0))
+     /\ (HasK(body, 16) /\ colSt = "helper" => Chk(OutMinAdaOk(GetK(body, 16), pp.cpb), "C07", "Built/collateral-return-below-min-ada", sc, 0))
      \* ---- C16 determinism
      /\ (e.again => Chk(e.tx = lastTx, "C16", "Built/second-build-differs", sc, 0) /\ Obl("C16", sc, shape))
      \* ---- C06 fee requests
      /\ (feeReq[1] = "exact" => Chk(fee = feeReq[2], "C06", "Built/fixed-fee-not-used", sc, [fee |-> ToBE(fee, 0)]))
      /\ (feeReq[1] = "notless" => Chk(Geq(fee, feeReq[2]), "C06", "Built/requested-min-fee-not-honoured", sc, [fee |-> ToBE(fee, 0)]))
      \* ---- C19 collateral equation (both fields set by one of the helpers)
-     /\ (colHelper /\ HasK(body, 16) /\ HasK(body, 17) =>
+     /\ (colSt = "helper" /\ HasK(body, 17) =>
            LET cins == Elems(body, 13)
                cin == SumSeqV(Len(cins), LAMBDA j : env[InputKey(cins[j])].value)
-               ret == OutValue(GetK(body, 16)) tot == ArgN(GetK(body, 17)) IN
+               ret == IF HasK(body, 16) THEN OutValue(GetK(body, 16)) ELSE VZero      \* no return output = nothing returned
+               tot == ArgN(GetK(body, 17)) IN
            /\ Obl("C19", sc, shape)
-           /\ Chk(VEq(cin, VAdd(ret, VCoin(tot))), "C19", "Built/collateral-equation-broken", sc, [inputs |-> ToBE(cin.coin, 0), ret |-> ToBE(ret.coin, 0), total |-> ToBE(tot, 0)]))
+           /\ Chk(VEq(cin, VAdd(ret, VCoin(tot))), "C19", "Built/collateral-equation-broken", sc, [inputs |-> ToBE(cin.coin, 0), ret |-> ToBE(ret.coin, 0), total |-> ToBE(tot, 0)])
+           /\ (HasK(body, 16) => Chk(OutMinAdaOk(GetK(body, 16), pp.cpb), "C19", "Built/collateral-return-below-min-ada", sc, 0))
+           \* percentage helper: total * 100 >= fee * pct
+           /\ (colPct # <<>> => Chk(Geq(MulSmall(tot, 100), Mul(fee, colPct[1])), "C19", "Built/total-collateral-below-percentage-of-fee", sc, [total |-> ToBE(tot, 0), fee |-> ToBE(fee, 0)])))
+     /\ (colSt = "failed" => Chk(~HasK(body, 16) /\ ~HasK(body, 17), "C19", "Built/failed-helper-left-collateral-fields-set", sc, 0) /\ Obl("C19", sc, <<"failed-helper", shape>>))
      \* ---- C06 sufficiency on the really signed bytes
      /\ IF ~Has(e.signed, "ok") THEN Emit([t |-> "TOOLFAIL", what |-> "harness could not sign", sc |-> sc, d |-> e.signed])
         ELSE LET stx == Parse(e.signed.bytes) IN
@@ -116,13 +124,36 @@ Built(e) ==
                         /\ Obl("C18", sc, <<shape, Len(vks), Len(boots)>>)
                         /\ Chk(size <= e.full_size.n, "C18", "Built/size-prediction-too-small", sc, [signed |-> size, predicted |-> e.full_size.n, vkeys |-> Len(vks), boots |-> Len(boots)])
                         /\ Chk(e.full_size.n < size + 101, "C18", "Built/size-prediction-counts-extra-witness", sc, [signed |-> size, predicted |-> e.full_size.n, vkeys |-> Len(vks), boots |-> Len(boots)]))
-Other(e) == UNCHANGED <<env, pp, keys, byron, balanced, feeReq, lastTx, colHelper>>
-Init == l = 1 /\ env = <<>> /\ pp = <<>> /\ keys = <<>> /\ byron = <<>> /\ balanced = FALSE /\ feeReq = <<"none">> /\ lastTx = <<>> /\ colHelper = FALSE
+\* ---- C07 stand-alone minimum-ADA function: MinAdaCall(outBytes, cpb, c)
+\* o' = the output carrying max(c, its coin); o8 = the output with the coin at its 8-byte encoding. Only the coin's head
+\* changes, so the sizes follow from the span of the coin item inside the output bytes.
+CoinItem(o) == LET v == OutValItem(o) IN IF v.mt = 0 THEN v ELSE v.kids[1]
+MinAda(e) ==
+  /\ UNCHANGED <<env, pp, keys, byron, balanced, feeReq, lastTx, colSt, colPct>>
+  /\ LET sc == e.sc o == Parse(e.out) cpb == FromBE(e.cpb_n) IN
+     IF IsErr(o) THEN Fail("C07", "MinAda/output-malformed", sc, o.why)
+     ELSE IF Has(e.r, "panic") THEN Fail("C07", "MinAda/panic", sc, e.r.panic)
+     ELSE IF ~Has(e.r, "ok") THEN
+          \* an error is acceptable only when the bound itself does not fit 64 bits
+          Chk(~FitsU64(Mul(cpb, FromSmall(160 + Len(e.out) - ItemLen(CoinItem(o)) + 9))), "C07", "MinAda/spurious-error", sc, e.r.err)
+     ELSE LET c == FromBE(e.r.v_n)
+              ci == CoinItem(o)
+              newcoin == MaxN(c, ArgN(ci))
+              size1 == Len(e.out) - ItemLen(ci) + Len(EUInt(newcoin))
+              size8 == Len(e.out) - ItemLen(ci) + 9 IN
+          /\ Obl("C07", sc, <<"minada", o.mt, Len(e.out), Len(ci.arg), Len(EUInt(newcoin)), Len(e.cpb_n)>>)
+          /\ Chk(Geq(newcoin, Mul(cpb, FromSmall(160 + size1))), "C07", "MinAda/result-does-not-satisfy-the-bound", sc,
+                 [c |-> e.r.v_n, need |-> ToBE(Mul(cpb, FromSmall(160 + size1)), 0), size |-> size1])
+          /\ Chk(Leq(c, Mul(cpb, FromSmall(160 + size8))), "C07", "MinAda/result-above-the-8-byte-bound", sc,
+                 [c |-> e.r.v_n, bound |-> ToBE(Mul(cpb, FromSmall(160 + size8)), 0)])
+Other(e) == UNCHANGED <<env, pp, keys, byron, balanced, feeReq, lastTx, colSt, colPct>>
+Init == l = 1 /\ env = <<>> /\ pp = <<>> /\ keys = <<>> /\ byron = <<>> /\ balanced = FALSE /\ feeReq = <<"none">> /\ lastTx = <<>> /\ colSt = "unset" /\ colPct = <<>>
 Next == /\ l <= Len(Rec)
         /\ LET e == Rec[l] IN
            CASE e.ev = "Reset" -> Reset(e)
              [] e.ev = "Op" -> Op(e)
              [] e.ev = "Built" -> Built(e)
+             [] e.ev = "MinAda" -> MinAda(e)
              [] OTHER -> Other(e)
         /\ (l = Len(Rec) => Done(l))
         /\ l' = l + 1
